@@ -223,3 +223,76 @@ func c08TwoChange(j int) (name string, patches [][]byte, src []byte) {
 	}
 	return name, [][]byte{[]byte(a.patch + "\n" + b.patch)}, []byte(s.src)
 }
+
+// ---- bulk -----------------------------------------------------------------------
+
+// long lists (statements, literal elements, arguments, declarations): memory and
+// steps must stay far from quadratic in the list length
+var c08BulkShapes = []struct {
+	name string
+	gen  func(n int) string // whole file
+}{
+	{"stmts", func(n int) string {
+		var sb strings.Builder
+		sb.WriteString("package sample\n\nfunc f() {\n")
+		for i := 0; i < n; i++ {
+			fmt.Fprintf(&sb, "\tbaz(%d)\n", i)
+		}
+		sb.WriteString("\tinner()\n}\n")
+		return sb.String()
+	}},
+	{"literal", func(n int) string {
+		var sb strings.Builder
+		sb.WriteString("package sample\n\nvar table = []int{\n")
+		for i := 0; i < n; i++ {
+			fmt.Fprintf(&sb, "\t%d,\n", i)
+		}
+		sb.WriteString("}\n\nfunc f() {\n\tinner()\n}\n")
+		return sb.String()
+	}},
+	{"args", func(n int) string {
+		var sb strings.Builder
+		sb.WriteString("package sample\n\nfunc f() {\n\tg(inner")
+		for i := 0; i < n; i++ {
+			fmt.Fprintf(&sb, ", %d", i)
+		}
+		sb.WriteString(")\n\tinner()\n}\n")
+		return sb.String()
+	}},
+	{"funcs", func(n int) string {
+		var sb strings.Builder
+		sb.WriteString("package sample\n\n")
+		for i := 0; i < n/4; i++ {
+			fmt.Fprintf(&sb, "func f%d() {\n\tbaz(%d)\n}\n\n", i, i)
+		}
+		sb.WriteString("func last() {\n\tinner()\n}\n")
+		return sb.String()
+	}},
+	{"struct-fields", func(n int) string {
+		var sb strings.Builder
+		sb.WriteString("package sample\n\ntype T struct {\n")
+		for i := 0; i < n; i++ {
+			fmt.Fprintf(&sb, "\tF%d int\n", i)
+		}
+		sb.WriteString("}\n\nfunc f() {\n\tinner()\n}\n")
+		return sb.String()
+	}},
+}
+
+var c08BulkPatches = []struct{ name, patch string }{
+	{"stmt-call", "@@\n@@\n-inner()\n+changed()\n"},
+	{"ident", "@@\n@@\n-inner\n+changed\n"},
+	{"func-dots", "@@\n@@\n func f() {\n   ...\n-  inner()\n+  changed()\n }\n"},
+}
+
+var c08BulkSizes = []int{2000, 8000}
+
+func c08BulkN() int { return len(c08BulkShapes) * len(c08BulkPatches) * len(c08BulkSizes) }
+
+func c08Bulk(j int) (name string, patch, src []byte) {
+	n := c08BulkSizes[j%len(c08BulkSizes)]
+	j /= len(c08BulkSizes)
+	p := c08BulkPatches[j%len(c08BulkPatches)]
+	sh := c08BulkShapes[(j/len(c08BulkPatches))%len(c08BulkShapes)]
+	return fmt.Sprintf("%s x %d %s", p.name, n, sh.name), []byte(p.patch), []byte(sh.gen(n))
+}
